@@ -64,6 +64,7 @@ type netKnobs struct {
 	getBlocksRequestCnt uint64
 	ipCountsMax         int
 	maxTxnAnnounce      int
+	maxIncomingMsgLen   int
 }
 
 type netNode struct {
@@ -111,6 +112,8 @@ type netSim struct {
 	monitor func(from *netNode, l *link, frame []byte)
 	// disconnect observer
 	onDisconnect func(n *netNode, l *link, reason error)
+	// onSendError sees every error of a node's send step (e.g. a message refused as too long)
+	onSendError func(n *netNode, l *link, err error)
 	genesisHash  cipher.SHA256
 }
 
@@ -157,6 +160,10 @@ func (ns *netSim) addDaemon(n *node, ip string, port uint16, mirror uint32) *net
 	cfg.Daemon.IPCountsMax = ns.knobs.ipCountsMax
 	cfg.Daemon.MaxTxnAnnounceNum = ns.knobs.maxTxnAnnounce
 	cfg.Pool.MaxOutgoingMessageLength = int(ns.knobs.maxOutgoingMsgLen)
+	if ns.knobs.maxIncomingMsgLen > 0 {
+		cfg.Pool.MaxIncomingMessageLength = ns.knobs.maxIncomingMsgLen
+		cfg.Daemon.MaxIncomingMessageLength = uint64(ns.knobs.maxIncomingMsgLen)
+	}
 	cfg.Pex.DataDirectory = cfg.Daemon.DataDirectory
 	cfg.Pex.Max = 64
 	if err := mkdirAll(cfg.Daemon.DataDirectory); err != nil {
@@ -197,6 +204,10 @@ func (ns *netSim) attach(n *netNode, remote string, solicited bool) (*link, erro
 // connectNodes establishes a connection a -> b (a dials b).
 func (ns *netSim) connectNodes(a, b *netNode, ephemeral uint16) (*link, *link, error) {
 	baddr := fmt.Sprintf("%s:%d", b.ip, b.port)
+	// a node only dials peers from its peer list
+	if err := a.dm.VerifPex().AddPeer(baddr); err != nil {
+		return nil, nil, err
+	}
 	if err := a.dm.VerifPending(baddr); err != nil {
 		return nil, nil, err
 	}
@@ -282,6 +293,9 @@ func (ns *netSim) pump() {
 						progress = true
 					}
 					if err != nil {
+						if ns.onSendError != nil {
+							ns.onSendError(n, l, err)
+						}
 						_ = n.pool.Disconnect(l.remote, err)
 						ns.afterDisconnect(l, err)
 						progress = true
